@@ -5,6 +5,7 @@ CONSTANTS Operands <- OperandsA
  LongOperands <- OperandsB
  LongOps <- OpsAll
  LongPres <- PresNone
+ ChainPairwise = FALSE
  RightTakesRest = FALSE
  GoRemainder = FALSE
  Emit = TRUE
